@@ -164,7 +164,7 @@ def oracle_files(c, sc, out):
     return verdict
 
 
-def gen_scenarios(c, nref):
+def gen_scenarios(c, nref, n_spawn):
     rng = c.rng
     scs = []
     n_hist, n_done, n_comp = (10, 5, 14) if c.quick else (80, 30, 210)
@@ -177,13 +177,18 @@ def gen_scenarios(c, nref):
         scs.append(cases.sc_done_marker(f"d{i:04d}", None if real else pres[i % 4], rng.choice([1, 2, 3]), rng.random() < 0.5, real))
     for i in range(n_comp):
         ns = rng.choice([2, 2, 3])
-        delays = [round(rng.choice([0.0, 0.0, rng.uniform(0, 0.05), rng.uniform(0, 0.3), rng.uniform(0, 1.0)]), 3) for _ in range(ns)]
+        delays = [round(rng.choice([0.0, 0.0, 0.0, rng.uniform(0, 0.01), rng.uniform(0, 0.05), rng.uniform(0, 0.5)]), 3)
+                  for _ in range(ns)]
         kill = None
         if rng.random() < 0.3:
             kill = (rng.randrange(ns), rng.randrange(1, nref + 25))
         scs.append(cases.sc_compete(f"c{i:04d}", ns, delays, round(rng.choice([0.0, 0.05, 0.2, 0.5]), 2), rng.random() < 0.25, kill,
                                     latch_at=rng.choice([None, None, round(rng.uniform(0.3, 2.0), 2)]),
                                     barrier=rng.random() < 0.8))
+    # a scheduler killed right after Popen (before / while / after the pid file is written), then others arrive
+    for i in range(4 if c.quick else 40):
+        scs.append(cases.sc_orphan(f"o{i:04d}", n_spawn + (i % 4), rng.choice([1, 1, 2]), round(rng.uniform(0.2, 1.0), 2),
+                                   rng.choice([0.0, 0.1])))
     if not c.quick:
         rng.shuffle(scs)
     return scs
@@ -217,7 +222,21 @@ def run(c: Check):
             gold = []
         for i, g in enumerate(gold):
             scs.append(dict(g, id=f"gold{i}"))
-        scs += gen_scenarios(c, 50)
+        # an undisturbed traced run tells at which executed line the process exists
+        ref = cases.sc_reference("one")
+        ro = run_impl("drive_c05.py", dict(scenarios=[ref], base=base, workers=1), timeout=200)[0]
+        if ro is None or not cases.usable(ro):
+            raise InternalError("reference run did not complete: " + json.dumps(ro)[:1500])
+        k = n_spawn = nref = 0
+        for r in replay.parse_log(ro["log"]):
+            if r["who"] != "P" and r["kind"] == "L" and r["rest"][0] in cases.KILLFUNCS + ["aio_submit"]:
+                k += 1
+                if not n_spawn and r["rest"][0] == "aio_run" and any(x.startswith("pid=") for x in r["rest"][3:]):
+                    n_spawn = k
+                if r["rest"][0] in cases.KILLFUNCS:
+                    nref = k
+        c.extra["reference"] = dict(lines=nref, first_line_with_process=n_spawn)
+        scs += gen_scenarios(c, nref, n_spawn or 60)
     outs = run_impl("drive_c05.py", dict(scenarios=scs, base=base, workers=6, deadline=t_budget),
                     timeout=(240 if c.quick else 1500)) if scs else []
     reg_cases, corr = [], []
